@@ -9,6 +9,7 @@
   index = object id) on which the three operators act.
 -/
 import XpModel.Basic
+import XpModel.Gen.Arith
 namespace Xp.Obj
 
 /-- (atom id, multiplier) in sub-objective order -/
@@ -127,8 +128,10 @@ def toValid (lo hi : Rat) (img : List Rat) : Option (List Rat) :=
 /-- `maco_image_parametrization` tail: `sigmoid(v) · (hi − lo) + lo` with `s = sigmoid(v)` -/
 def macoTail (lo hi s : Rat) : Rat := s * (hi - lo) + lo
 
-/-- number of frequency columns kept by `fft_2d_freq` and the width `irfft2d` gives back -/
-def fftCols (w : Nat) : Nat := w / 2 + 1 + (if w % 2 = 1 then 1 else 0)
+/-- number of frequency columns kept by `fft_2d_freq` (and below: the width `irfft2d` gives back);
+    uses the arithmetic GENERATED from `fft_2d_freq` (`cut_off = int(width % 2 == 1)`,
+    slice bound `width//2+1+cut_off`) -/
+def fftCols (w : Nat) : Nat := (Gen.fftColsGen (w : Int) (Gen.fftCutOff (w : Int))).toNat
 def irfftWidth (cols : Nat) : Nat := 2 * (cols - 1)
 
 end Xp.Obj
